@@ -33,6 +33,42 @@ func headerChecksTkl(repo string) bool {
 	return found
 }
 
+// writeMessageSingleWrite reports whether tcp/client/session.go Session.WriteMessage hands the marshalled frame to the
+// transport in one piece: `data, err := req.MarshalWithEncoder(…)`, exactly one call of a `…WriteWithContext(ctx, data)` whose
+// data argument is that very identifier (not a slice of it), not inside a loop, and no other write call on the connection.
+func writeMessageSingleWrite(repo string) bool {
+	_, f := parseFile(repo, "tcp/client/session.go")
+	fd := funcDecl(f, "Session", "WriteMessage")
+	dataVar := ""
+	for _, st := range fd.Body.List {
+		if as, ok := st.(*ast.AssignStmt); ok && len(as.Lhs) == 2 && len(as.Rhs) == 1 {
+			if c, ok := as.Rhs[0].(*ast.CallExpr); ok && strings.HasSuffix(exprStr(c.Fun), ".MarshalWithEncoder") {
+				dataVar = identName(as.Lhs[0])
+			}
+		}
+	}
+	if dataVar == "" {
+		return false
+	}
+	writes, good, loops := 0, 0, 0
+	ast.Inspect(fd.Body, func(n ast.Node) bool {
+		switch x := n.(type) {
+		case *ast.ForStmt, *ast.RangeStmt:
+			loops++
+		case *ast.CallExpr:
+			name := exprStr(x.Fun)
+			if strings.Contains(name, "connection.") && strings.Contains(name, "Write") {
+				writes++
+				if strings.HasSuffix(name, ".WriteWithContext") && len(x.Args) == 2 && identName(x.Args[1]) == dataVar {
+					good++
+				}
+			}
+		}
+		return true
+	})
+	return writes == 1 && good == 1 && loops == 0
+}
+
 func init() {
 	register("TcpFraming.lean", func(g *gen, repo string) {
 		var b strings.Builder
@@ -45,6 +81,7 @@ func init() {
 		fmt.Fprintf(&b, "/-- tcp/coder/coder.go: DecodeHeader checks `tkl > message.MaxTokenSize` right after the first byte (read from the AST) -/\ndef headerChecksTkl : Bool := %v\n", headerChecksTkl(repo))
 		fmt.Fprintf(&b, "/-- message/codes: signalling codes handled inline by tcp/client/conn.go: handleSignals (CSM, Ping, Pong, Release, Abort) -/\ndef signalCodes : List Nat := [%d, %d, %d, %d, %d]\n",
 			codes.CSM, codes.Ping, codes.Pong, codes.Release, codes.Abort)
+		fmt.Fprintf(&b, "/-- tcp/client/session.go: Session.WriteMessage marshals the message and hands the whole frame to the connection's WriteWithContext in one call, outside any loop (read from the AST) -/\ndef writeMessageSingleWrite : Bool := %v\n", writeMessageSingleWrite(repo))
 		b.WriteString("\nend CoapVerif.Generated.TcpFraming\n")
 		g.write("TcpFraming.lean", b.String())
 	})
